@@ -23,7 +23,9 @@ it looks the value up in the table built from these facts.
 
 * `r2 <rcfg> single <root> <keybits> <value> <node>*` — `trie2.VerifyRangeProof(root, key, [key], [value], proof)`;
   `r2 <rcfg> empty <root> <firstbits> <node>*` — `trie2.VerifyRangeProof(root, first, nil, nil, proof)`;
-  `<rcfg>` = three digits `<checkHash><earlyValue><leafHash>` (`RCfg`); answer `ok <more 0|1>` | `err`.
+  `r2 <rcfg> multi <root> <firstbits> <keybits=value>* | <node>* | <a:b:h>*` — the general case (the
+  last part: hash evaluations of the trie's own nodes, needed to rehash the rebuilt trie);
+  `<rcfg>` = five digits `<checkHash><earlyValue><leafHash><zeroRoot><unsetLeaf>` (`RCfg`); answer `ok <more 0|1>` | `err`.
 
 Answers of `vL`/`v2`: `ok <felt>` | `err:notfound` | `err:mismatch` | `err:keylen` | `err:earlyvalue` |
 `err:fuel`; malformed request: `bad-op`.
@@ -138,6 +140,14 @@ def showNode (e : Nat × PNode Nat) : String :=
 def splitAtBar (toks : List String) : List String × List String :=
   (toks.takeWhile (· != "|"), (toks.dropWhile (· != "|")).drop 1)
 
+def parseRCfg (s : String) : Option RCfg :=
+  match s.toList with
+  | [a, b, c, d, e] =>
+    if [a, b, c, d, e].all (fun x => x == '0' || x == '1') then
+      some ⟨a == '1', b == '1', c == '1', d == '1', e == '1'⟩
+    else none
+  | _ => none
+
 def step (s : Unit) (line : String) : Unit × String :=
   match words line with
   | "vL" :: cfg :: root :: key :: nodes =>
@@ -151,15 +161,23 @@ def step (s : Unit) (line : String) : Unit × String :=
       (s, showRes (verify2 (tableAlg tbl) cfg root key ps))
     | _, _, _, _ => (s, "bad-op")
   | "r2" :: cfg :: "single" :: root :: key :: value :: nodes =>
-    match parseCfg cfg, hexToNat? root, parseBits key, hexToNat? value, parseNodes nodes with
+    match parseRCfg cfg, hexToNat? root, parseBits key, hexToNat? value, parseNodes nodes with
     | some f, some root, some key, some value, some (ps, tbl) =>
-      (s, showRRes (verifySingle (tableAlg tbl) ⟨f.trustCache, f.earlyValue, f.zeroRoot⟩ root key value ps))
+      (s, showRRes (verifySingle (tableAlg tbl) f root key value ps))
     | _, _, _, _, _ => (s, "bad-op")
   | "r2" :: cfg :: "empty" :: root :: first :: nodes =>
-    match parseCfg cfg, hexToNat? root, parseBits first, parseNodes nodes with
+    match parseRCfg cfg, hexToNat? root, parseBits first, parseNodes nodes with
     | some f, some root, some first, some (ps, tbl) =>
-      (s, showRRes (verifyEmpty (tableAlg tbl) ⟨f.trustCache, f.earlyValue, f.zeroRoot⟩ root first ps))
+      (s, showRRes (verifyEmpty (tableAlg tbl) f root first ps))
     | _, _, _, _ => (s, "bad-op")
+  | "r2" :: cfg :: "multi" :: root :: first :: rest =>
+    let (kvToks, rest2) := splitAtBar rest
+    let (nodeToks, factToks) := splitAtBar rest2
+    match parseRCfg cfg, hexToNat? root, parseBits first, parseAll parseKV kvToks, parseNodes nodeToks,
+        parseAll parseFact factToks with
+    | some f, some root, some first, some kvs, some (ps, tbl), some facts =>
+      (s, showRRes (verifyMulti (tableAlg (tbl ++ facts)) f root first kvs ps))
+    | _, _, _, _, _, _ => (s, "bad-op")
   | "pv" :: legacy :: cached :: height :: key :: rest =>
     let (kvToks, factToks) := splitAtBar rest
     match parseCfg (legacy ++ cached ++ "0"), height.toNat?, parseBits key, parseAll parseKV kvToks,
